@@ -68,7 +68,12 @@ def cases(O):
 
 
 def judge(ctx):
-    if not ctx.ok or getattr(ctx, "is_model", False):
+    if getattr(ctx, "is_model", False):
+        return []
+    if not ctx.ok:
+        # no report at all: the call panics on an input the model accepts, with collection enabled
+        if ctx.cout.get("outcome") == "panic" and ctx.cfg.get("literals") and ctx.m.get("model") == "ok":
+            return [Failure("missing: the call panics (%s) on an input the model accepts: no literal report is produced" % str(ctx.cout.get("panic") or ctx.cout.get("error"))[:120])]
         return []
     res = ctx.cout["result"]
     rep = res.get("literalsResult")
